@@ -651,6 +651,19 @@ impl G {
                 for _ in 0..n {
                     vs.push(json!({"t":"pat","k":"regex","ic":ic,"a":self.r.pick(&pool).clone()}));
                 }
+                // regexes with LARGE compiled programs (eighty word-class atoms and a letter): each compiles
+                // alone, three of them in one set exceed the regex crate's default size limit - whatever
+                // builds the set (the list at load, shake for or-ed identifiers) must not panic
+                let mut n = n;
+                if self.r.chance(1, 6) {
+                    vs.clear();
+                    n = 3;
+                    for l in ['a', 'b', 'c'] {
+                        let mut atoms: Vec<J> = (0..80).map(|_| json!({"t":"cls","n":"w"})).collect();
+                        atoms.push(c(l));
+                        vs.push(json!({"t":"pat","k":"regex","ic":ic,"a":atoms}));
+                    }
+                }
                 let hay = ["a", "xa", "b..", "b", "xab", "Ay", "q", "ba", "q\na", "b\nq", "q\nb\nq"];
                 self.own_docs = Some((0..5).map(|_| obj(vec![("f".into(), s_node(*self.r.pick(&hay)))])).collect());
                 if self.r.chance(1, 2) {
@@ -1435,6 +1448,7 @@ const COND_PIECES: &[&str] = &[
     "not_admin", "or_else", "and_more", "or.x", "all_of", "not#1", "of[0]", "and.or", "int_f", "not.not", "all(not_admin)", "of(or_else, 1)",
     // names that differ from a defined identifier only in letter case: they are NOT defined
     "a", "b", "Android", "ORDER", "all(a)", "of(b, 1)", "Not_admin",
+    "OR", "Not", "AND", "All", "OR", "AND",
     "-", "-1", ".", "..", "1.2.3", "1.", ".5", "99999999999999999999", "9223372036854775807", "#x", "A[0]", "A.B",
     "_", "all", "of", "int", "all(A)", "of(B, 1)", "of(B,0)", "Z", "all(Z)", "of(Z, 1)", "not(Z)", "int(Z)", "int(f)", "flt(g)", "str(f)", "int(f) == 1", "flt(g) < 1.5",
     "str(f) == str(g)", "int(f) >= int(g)",
@@ -1446,7 +1460,9 @@ const COND_ODD: &[&str] = &["é", "É1", "😀", "&", "|", "\t", "\u{b}", "\u{a0
 /// identifier names of the condition generators: words that begin with keyword letters, and
 /// names in which the keyword letters are followed by the OTHER identifier characters (_ . # [ ])
 const COND_NAMES: &[&str] = &["A", "B", "C", "android", "order", "nothing", "allow", "offline", "notable", "orbit",
-                              "not_admin", "or_else", "and_more", "or.x", "all_of", "not#1", "of[0]", "and.or", "int_f", "not.not"];
+                              "not_admin", "or_else", "and_more", "or.x", "all_of", "not#1", "of[0]", "and.or", "int_f", "not.not",
+                              // keywords are lower case only: their case variants are ordinary names
+                              "OR", "Not", "AND", "All"];
 /// the field an atom identifier tests: `f` + the letters and digits of its name
 fn atom_field(n: &str) -> String {
     format!("f{}", n.chars().filter(|c| c.is_ascii_alphanumeric()).collect::<String>())
@@ -1602,11 +1618,15 @@ fn fuzz_case(g: &mut G, rule_files: &[String]) -> J {
                 // two regexes of one case class whose compiled programs are large (counted repetition
                 // of a Unicode class): each loads alone, the list is compiled into ONE set
                 4 => {
-                    let big = ["^\\w{32}$", "^\\w{40}$", "\\w{24}-\\w{24}", "[\\p{L}]{40}", "\\w{16}"];
+                    let big = ["^\\w{32}$", "^\\w{40}$", "\\w{24}-\\w{24}", "[\\p{L}]{40}", "\\w{16}",
+                               // each compiles alone under the default size limit; two or three of them in ONE set do not
+                               "\\w{120}a", "\\w{120}b", "a\\pL{200}", "b\\pL{200}", "c\\pL{200}", "\\w{80}a", "\\w{80}b", "\\w{80}c"];
                     let pre = if g.r.chance(1, 3) { "i?" } else { "?" };
                     let a = format!("{}{}", pre, g.r.pick(&big));
                     let b = format!("{}{}", pre, g.r.pick(&big));
-                    json!({"t":"A","vs":[s_node(&a), s_node(&b)]})
+                    let mut vs = vec![s_node(&a), s_node(&b)];
+                    if g.r.chance(1, 2) { vs.push(s_node(&format!("{}{}", pre, g.r.pick(&big)))); }
+                    json!({"t":"A","vs":vs})
                 }
                 0 => s_node(&p),
                 1 => json!({"t":"A","vs":[s_node(&p), s_node(&pat_soup(g)), s_node("x")]}),
@@ -1919,6 +1939,23 @@ fn respace(g: &mut G, text: &str) -> String {
 /// members (slow_aho switches from a bitmap to a set at 64)
 fn big_case(g: &mut G, i: usize) -> J {
     let exact = |t: &str| json!({"t":"pat","k":"exact","ic":false,"a":cps(t)});
+    if i % 4 == 3 {
+        // three regexes with large compiled programs on one field as or-ed identifiers: each compiles
+        // alone, the RegexSet that shake builds from them exceeds the regex crate's default size limit
+        let ic = g.r.chance(1, 3);
+        let reps = 70 + g.r.below(20);
+        let ids: Vec<J> = ['a', 'b', 'c'].iter().enumerate().map(|(k, l)| {
+            let mut atoms: Vec<J> = (0..reps).map(|_| json!({"t":"cls","n":"w"})).collect();
+            atoms.push(json!({"t":"c","c": *l as u32}));
+            json!([cps(IDENTS[k]), {"t":"map","es":[{"m":"none","c":0,"f":cps("f"),"v":{"t":"pat","k":"regex","ic":ic,"a":atoms}}]}])
+        }).collect();
+        let cond = (0..3).map(|k| json!({"t":"id","n":cps(IDENTS[k])})).reduce(|l, r| json!({"t":"or","l":l,"r":r})).unwrap();
+        let long: String = "w".repeat(reps);
+        let docs = vec![obj(vec![("f".into(), s_node(&format!("{}b", long)))]), obj(vec![("f".into(), s_node("wb"))]),
+                        obj(vec![("f".into(), s_node(&format!("{}d", long)))]), obj(vec![])];
+        return json!({"topic":"big","oracle":true,"wt":true,"src":{"cond":cond,"ids":ids},"docs":docs,
+               "plan":{"tri":false,"sws":[[], [true,true,true,true], [false,true,false,false], [true,true,false,false]]}});
+    }
     if i % 2 == 0 {
         let nf = 129 + g.r.below(8);
         let mut ids = vec![];
